@@ -276,7 +276,11 @@ var Alphabet = []string{"I1", "U1", "D1", "R1", "U2", "U2z", "CN", "CNS", "IN", 
 // Terminators (END = the statement list simply ends).
 // LK: a data-changing statement on a table that another process holds locked for the whole run: the procedure
 // ends by the lock-wait error.
-var Terminators = []string{"END", "E1", "E2", "EX0", "EX1", "TE", "LK"}
+// CF: a COMMIT that fails in its file phase: an external command run from the procedure removes the shadow files
+// the new contents are written to, so the rename over the first changed table fails (real CLI only: the command
+// works in the working directory). It ends the procedure only when an existing table file is dirty; otherwise
+// the COMMIT succeeds and the procedure goes on.
+var Terminators = []string{"END", "E1", "E2", "EX0", "EX1", "TE", "LK", "CF"}
 
 var sqlOf = map[string]string{
 	"I1":  "INSERT INTO t1 (a, b) VALUES (3, 'i');",
@@ -311,6 +315,7 @@ var sqlOf = map[string]string{
 	"EX1": "EXIT 1;",
 	"TE":  "TRIGGER ERROR;",
 	"LK":  "SET @@WAIT_TIMEOUT TO 0.05; UPDATE k SET v = 'z';",
+	"CF":  "$ sh -c 'rm -f .*.temp'; COMMIT;",
 	"END": "",
 }
 
@@ -366,6 +371,7 @@ type Outcome struct {
 	Probes    []Probe // SELECT results in execution order
 	Executed  int     // statements executed (transitions of the model)
 	Changes   int     // executed statements that changed a table or a temporary table
+	Unjudged  bool    // the procedure reached a point whose outcome the reference does not define (CF with a created table dirty)
 	// after the end
 	TopTemps map[string]Table // temporary tables of the outermost scope as they must be after the end
 }
@@ -743,6 +749,38 @@ func (r *runner) stmt(n *Node) *stop {
 		return &stop{kind: "error", cause: "TE", codes: []int{64}}
 	case "LK":
 		return &stop{kind: "error", cause: "LK", codes: []int{LockTimeoutCode}}
+	case "CF":
+		r.out.Executed++ // the external command
+		dirtyOld, dirtyNew, unspellable := false, false, false
+		for _, n := range st.Order {
+			f := st.Files[n]
+			if f.Changed && f.WorkExists {
+				if f.DiskExists {
+					dirtyOld = true
+				} else {
+					dirtyNew = true
+				}
+				if _, ok := Render(f.Work, f.Format, true); !ok {
+					unspellable = true
+				}
+			}
+		}
+		if !dirtyOld {
+			// no shadow file is renamed: an ordinary COMMIT
+			if cause, ok := st.commit(); !ok {
+				return &stop{kind: "commit-error", cause: cause, codes: []int{1, 16}}
+			}
+			return nil
+		}
+		if dirtyNew {
+			// csvq commits file by file: the created table is complete before the first rename fails. What the
+			// directory must hold then is not what this family judges.
+			r.out.Unjudged = true
+		}
+		if unspellable {
+			return &stop{kind: "commit-error", cause: "CF", codes: []int{1, 16}}
+		}
+		return &stop{kind: "commit-error", cause: "CF", codes: []int{16}}
 	default:
 		panic("c01m: unknown op " + n.Op)
 	}
